@@ -897,10 +897,31 @@ _UFUNC_FOLDS = {"add": lambda x, y: x + y, "multiply": lambda x, y: x * y, "subt
                 "maximum": lambda x, y: _maximum(x, y), "minimum": lambda x, y: _minimum(x, y)}
 
 
-def _ufunc_reduce(n, a, axis=0, **kw):
+def _ufunc_method(f, method, symbolic_impl, operands, kw):
+    """ufunc.reduce / outer / accumulate: the real numpy method unless symbolic data are involved; `out=` is honoured (the result is
+    written into it); other keyword arguments (dtype, where, initial, keepdims) are only supported on the numpy route"""
+    native = getattr(f, method)
+    out = kw.get("out")
+    if not MODE["symbolic"]:
+        return native(*operands, **kw)
+    if all(is_concrete(x) for x in operands) and (out is None or _nd_dtype(out) != object):
+        return _symbolic_result(native(*[to_concrete(x) for x in operands], **kw))
+    extra = {k: v for k, v in kw.items() if k not in ("out", "axis") and v is not None}
+    if "dtype" in extra and np.dtype(extra["dtype"]).kind in "fcO":
+        del extra["dtype"]              # exact arithmetic: a floating / complex / object result type changes nothing
+    if extra:
+        raise core.StubMiss(f"ufunc.{method} with {sorted(extra)} on symbolic data")
+    r = symbolic_impl()
+    if out is None:
+        return r
+    if _nd_dtype(out) != object:
+        raise core.StubMiss("numeric out= array with symbolic operands")
+    out[...] = np.asarray(r, dtype=object)
+    return out
+
+
+def _ufunc_reduce(n, a, axis=0):
     """np.<ufunc>.reduce along one axis (default 0, like numpy), python-level fold"""
-    if not MODE["symbolic"] or is_concrete(a):
-        return _wrap(getattr(np, n).reduce(to_concrete(a) if MODE["symbolic"] else a, axis=axis, **kw))
     A = np.asarray(a, dtype=object)
     op = _UFUNC_FOLDS[n]
     if axis is None:
@@ -969,9 +990,10 @@ class NpProxy(types.ModuleType):
             return _wrap(f(*a, **kw))
         wrapped.__name__ = n
         if isinstance(f, np.ufunc) and n in _UFUNC_FOLDS:
-            wrapped.reduce = lambda a, axis=0, **kw: _ufunc_reduce(n, a, axis, **kw)
-            wrapped.outer = lambda a, b, **kw: _ufunc_outer(n, a, b)
-            wrapped.accumulate = lambda a, axis=0, **kw: _ufunc_accumulate(n, a, axis)
+            wrapped.reduce = lambda a, axis=0, **kw: _ufunc_method(f, "reduce", lambda: _ufunc_reduce(n, a, axis), (a,), dict(kw, axis=axis))
+            wrapped.outer = lambda a, b, **kw: _ufunc_method(f, "outer", lambda: _ufunc_outer(n, a, b), (a, b), kw)
+            wrapped.accumulate = lambda a, axis=0, **kw: _ufunc_method(f, "accumulate", lambda: _ufunc_accumulate(n, a, axis), (a,), dict(kw, axis=axis))
+            wrapped.at = f.at
         return wrapped
 
     def _mk(self, r):
